@@ -247,10 +247,34 @@ def judge(d, _=None):
     return out
 
 
+def tie_programs():
+    """Branches that finish at the same virtual instant: their done-callbacks race."""
+    out = []
+    for cname in ("all_completed", "default", "min1tol1", "tol1"):
+        for behs in (("ok", "ok"), ("ok", "fail"), ("ok", "ok", "ok"), ("fail", "ok", "ok")):
+            out.append(make("par", len(behs), cname, None, behs, [1] * len(behs)))
+    out.append(make("map", 2, "all_completed", None, ["ok", "ok"], [1, 1]))
+    out.append(make("map", 3, "default", None, ["ok", "ok", "ok"], [1, 1, 1]))
+    return out
+
+
 def space(tier):
     quick = tier == "quick"
     cap = 5_000 if quick else 200_000
     units = []
+    # line-level preemption inside the executor (done-callbacks, result building)
+    import aws_durable_execution_sdk_python.concurrency.executor as _ex_mod
+    lf = [_ex_mod.__file__]
+    ties = tie_programs()
+    for p in (ties[:4] + ties[-2:]) if quick else ties:
+        units.append(({"program": p, "cfg": {"env_kinds": [], "horizon": 40.0, "line_files": lf}},
+                      {"thread": 1, "total": 1}, 40_000 if quick else 400_000))
+    for p in tie_programs():
+        units.append(({"program": p, "cfg": {"env_kinds": [], "horizon": 40.0}},
+                      {"thread": 1, "total": 1} if quick else {"thread": 2, "total": 2}, 20_000 if quick else 400_000))
+        for pol in ("low", "high", "rr"):
+            units.append(({"program": p, "cfg": {"env_kinds": [], "policy": pol, "horizon": 40.0}},
+                          {"thread": 1, "total": 1} if not quick else {"total": 0}, 20_000 if quick else 400_000))
     for p in programs(tier):
         units.append(({"program": p, "cfg": {"env_kinds": [], "horizon": 40.0}}, {"total": 0}, cap))
         if not quick:
@@ -270,6 +294,8 @@ simcheck.install(globals(), "C09", [judge], space,
                  "parallel with 0..3 branches (every succeed/fail assignment x completion orders via distinct virtual "
                  "finish times) and homogeneous maps of 0..3 items x 14 completion configs (none, empty, first_successful, "
                  "all_completed, all_successful, min_successful 1/2, tolerated count 0/1, tolerated percentage 0/50, "
-                 "three combinations) x max_concurrency {None,1,2}; blocked and parked branches next to deciders; each "
+                 "three combinations) x max_concurrency {None,1,2}; blocked and parked branches next to deciders; 18 programs whose "
+                 "branches finish at the same instant under every schedule with <=1 (quick) / <=2 (thorough) preemption, six (quick) / "
+                 "all (thorough) of them also with one preemption at any line of concurrency/executor.py; each "
                  "program continues with a wait so that a second invocation replays the result; thorough adds policies "
                  "low/high on every program and +1 scheduling deviation on 2-branch programs")
